@@ -130,6 +130,10 @@ pub fn run_sharded(
     run_item: impl Fn(usize) -> ItemResult,
 ) -> Vec<ItemResult> {
     if let Ok(spec) = std::env::var("VERIF_SHARD") {
+        // a check with several sharded parts: this child belongs to one of them
+        if std::env::var("VERIF_SHARD_LABEL").ok().is_some_and(|l| l != label) {
+            return vec![];
+        }
         let (i, n) = spec.split_once('/').unwrap_or(("0", "1"));
         let (i, n): (usize, usize) = (i.parse().unwrap_or(0), n.parse().unwrap_or(1));
         let out = std::io::stdout();
